@@ -93,6 +93,14 @@ theorem board_tables_distinct :
 theorem consts_ok : adc16Name = adcName 66 4 1 2 3 16 15 ∧ adc32Name = adcName 67 4 1 2 3 32 31 := by
   constructor <;> rfl
 
+/-- The first-character dispatch of `MainEventBankName::try_from` / `Alpha16BankName::try_from`
+(transcribed by hand in `mainName` / `alpha16Name`) is still what the source says. -/
+theorem dispatch_tie :
+    mainDispatch = [(['A'], "TriggerBankName"), (['B', 'C'], "Alpha16BankName"),
+      (['P'], "PadwingBankName"), (['T'], "Trb3BankName"), (['M'], "McVertexBankName")]
+    ∧ alpha16Dispatch = [(['C'], "Adc32BankName"), (['B'], "Adc16BankName")]
+    ∧ triggerName = "ATAT" ∧ trb3Name = "TRBA" ∧ mcVertexName = "MCVX" := by decide
+
 /-! ### Accepted strings -/
 
 theorem a16Codes_length : a16Codes.length = alpha16Boards.length := by simp [a16Codes]
